@@ -8,6 +8,7 @@ BUILD = os.path.join(ROOT, ".build")
 FEATURES = {
     "default": [],
     "all": ["luau", "lua52", "lua53", "lua54", "luajit"],
+    "luau": ["luau"],          # `cargo install stylua --features luau`: full_moon has the operators it shares with Lua 5.3 (`//`), StyLua's lua53 arms are off (D42)
     "luajit": ["luajit"],      # a supported Cargo feature on its own: full_moon then has Goto/Label statements, StyLua's lua52 module is off
 }
 # cfg features of the stylua crate itself that are on in both sets (Cargo default features)
